@@ -39,7 +39,9 @@ where
         loop {
             // default search with storage header
             if !self.detected_serial_header {
-                match parse_dlt_with_storage_header(self.index, self.reader.fill_buf().unwrap()) {
+                let buf = self.reader.fill_buf().unwrap();
+                let buf_len = buf.len();
+                match parse_dlt_with_storage_header(self.index, buf) {
                     Ok((res, msg)) => {
                         self.reader.consume(res);
                         self.bytes_processed += res;
@@ -61,8 +63,10 @@ where
                         }
                         _ => {
                             // not enough data for a msg with storage header. If no framing was
-                            // detected yet a (shorter) msg with serial header might still fit.
-                            if self.detected_storage_header {
+                            // detected yet and less than a minimal msg with storage header is left
+                            // a (shorter) msg with serial header might still fit.
+                            if self.detected_storage_header || buf_len >= crate::dlt::MIN_DLT_MSG_SIZE
+                            {
                                 break;
                             }
                         }
